@@ -5,7 +5,8 @@
      _vnacal_new_solve_is_trl and vnacal_add_calibration,
    as coded at the current head of the repository (which includes the repairs D14, D15, D19, D21, D22
    and the refusal of measurement matrices larger than the calibration / of abbreviated matrices whose
-   ports have no row or column).
+   ports have no row or column, D63: rectangular S only with T16 / U16, D17: parameters are
+   registered only after every argument check has passed).
    No proofs in this file.  The numeric part of a solve (LU / QR rank decisions, iteration,
    p-value, UE14->E12 conversion) is an uninterpreted oracle.  Allocation failure is not modelled.
 
@@ -167,6 +168,7 @@ Definition check_args (cf : config) (a : add_args) : verdict :=
   else if negb ((a_brows a =? min_brows cf a) || (a_brows a =? r)) then Reject
   else if negb ((a_bcols a =? min_bcols cf a) || (a_bcols a =? c)) then Reject
   else if (r <? a_brows a) || (c <? a_bcols a) then Reject        (* larger than the calibration matrix *)
+  else if negb (is_16 (cf_ty cf)) && negb (sr =? sc) then Reject    (* partially known S: T16 / U16 only *)
   else
     match a_map a with
     | Some m =>
@@ -174,7 +176,6 @@ Definition check_args (cf : config) (a : add_args) : verdict :=
       else if existsb (fun p => ((a_brows a <? r) && (r <? p)) || ((a_bcols a <? c) && (c <? p))) (firstn s_ports m)
       then Reject                                               (* abbreviated matrix, port without a row / column *)
       else if negb (map_ok P [] (firstn s_ports m)) then Reject
-      else if negb (is_16 (cf_ty cf)) && negb (sr =? sc) then Undefined    (* assert(vnprp != NULL) in build_terms_* *)
       else if negb (length (a_cells a) =? (if a_sdiag a then Nat.min sr sc else sr * sc)) then Undefined
       else Accept
     | None =>
@@ -346,13 +347,13 @@ Definition add_std (st : state) (a : add_args) : state * outcome :=
   | Reject => (st, Err EINVAL)
   | Undefined => (st, OutOfModel)
   | Accept =>
-    (* the S handles are looked up (and unknown parameters counted) before the add can still fail (D17) *)
-    let regd := fold_left (reg_slot (length (cf_kinds cf)) (cf_kinds cf)) (a_cells a)
-                          (st_seen st, st_unknown st, st_corr st) in
-    let st1 := set_params st regd in
     let s := full_s cf a in
-    if st_merr st && is_16 (cf_ty cf) && negb (s_complete (cf_p cf) s) then (st1, Err EINVAL)
+    if st_merr st && is_16 (cf_ty cf) && negb (s_complete (cf_p cf) s) then (st, Err EINVAL)
     else
+      (* all argument checks have passed: the S handles are looked up and unknown parameters counted *)
+      let regd := fold_left (reg_slot (length (cf_kinds cf)) (cf_kinds cf)) (a_cells a)
+                            (st_seen st, st_unknown st, st_corr st) in
+      let st1 := set_params st regd in
       let idx := length (st_meas st) in
       let new := map (fun '(k, rc) => (k, (idx, rc))) (gen_equations cf a) in
       let '(sys, total, mx) := fold_left link_one new (st_sys st, st_equations st, st_max st) in
